@@ -1,7 +1,7 @@
 (* C10 — declared shifts bound what a rule actually reads when counting.
 
    Only statements; every proof is an application of lemmas of
-   Count/CompositionsSpec.v and Count/Reads.v.
+   Count/CompositionsSpec.v, Count/Reads.v and Count/ReadsDerived.v.
 
    `compositions`, `product_shifts`, `union_shifts`, `reverse_shifts`,
    `quotient_min_sizes/_max_sizes/_parent_shift` are NOT hand-written: they are
@@ -15,10 +15,17 @@
    i >= 0 the i-th child of the rule being counted and SELF = -1 the rule's own
    earlier terms.  A rule is given by the descriptors (minimum size, is_atom)
    of the ORIGINAL rule's children; every theorem holds for ALL descriptor
-   lists, ALL sizes n and ALL indices idx in range.                         *)
+   lists, ALL sizes n and ALL indices idx in range.
+
+   The derived forms (EquivalenceRule, EquivalenceRule of a ReverseRule,
+   EquivalencePathRule; forms 4, 5, 6 of Count/ReadsModel.v, lemmas in
+   Count/ReadsDerived.v) have one child and declare strategy.shifts(class,
+   (child,)) through the same generated union_shifts / product_shifts, applied
+   to the ONE-element list of the descriptor d of that child; the theorems about
+   them hold for ALL d and BOTH kinds of strategy.                          *)
 From Coq Require Import ZArith List Bool Lia.
 From CSS Require Import Gen.Prelude Gen.Compositions Gen.ReverseShifts Gen.ProductShifts
-  Gen.UnionShifts Gen.QuotientParentShift Count.CompositionsSpec Count.Reads.
+  Gen.UnionShifts Gen.QuotientParentShift Count.CompositionsSpec Count.Reads Count.ReadsDerived.
 Import ListNotations.
 Open Scope Z_scope.
 
@@ -123,12 +130,103 @@ Theorem C10_one_shift_per_child : forall form c idx,
   zlen (rule_shifts form c idx) = zlen c.
 Proof. exact rule_shifts_length. Qed.
 
+(* ------------------------------------------------------------ derived forms *)
+(* forms 4 (EquivalenceRule of a union rule), 5 (EquivalenceRule of its ReverseRule) and
+   6 (EquivalencePathRule).  These rules inherit AbstractRule.shifts and so declare
+   strategy.shifts(comb_class, (child,)) for a (class, children) pair the strategy's own
+   decomposition function may never have produced.  That subtlety is covered by the quantifiers:
+   the statement holds for EVERY descriptor d = (minimum size, is_atom) of the class handed to
+   strategy.shifts — whatever class it is, related to the strategy or not — and for BOTH shifts
+   methods (strat = 0: DisjointUnionStrategy.shifts, otherwise CartesianProductStrategy.shifts),
+   both taken from the generated Gen/UnionShifts.v, Gen/ProductShifts.v on the list [d].
+   The declared tuple has exactly one entry; every read is of provider 0 (never the rule's own
+   terms), at a size <= n - the declared shift; indeed the size is n and the shift is 0. *)
+Theorem C10_derived_reads_respect_declared_shifts : forall form strat d,
+  4 <= form <= 6 ->
+  zlen (derived_shifts strat d) = 1 /\
+  forall n p m, In (p, m) (derived_reads form d n) ->
+    p = 0 /\ p <> SELF /\ m <= n - nth 0 (derived_shifts strat d) 0 /\
+    m = n /\ nth 0 (derived_shifts strat d) 0 = 0.
+Proof. exact derived_reads_respect_shifts. Qed.
+
+(* the bound is attained: the one child IS read at size n, and nothing else is read *)
+Theorem C10_derived_reads_exact : forall form strat d n,
+  4 <= form <= 6 ->
+  derived_reads form d n = [(0, n)] /\ derived_shifts strat d = [0].
+Proof.
+  intros form strat d n Hf. split.
+  - apply derived_reads_eq. exact Hf.
+  - apply derived_shifts_eq.
+Qed.
+
+(* consistency with the rule an equivalence rule comes from, union case: for ANY original
+   descriptor list c and position ci of the non-empty child, the shift the equivalence rule
+   declares for its child is the shift the original union rule declares for child ci *)
+Theorem C10_equivalence_shift_is_original_shift : forall (c : desc) ci d0,
+  0 <= ci < zlen c ->
+  nth 0 (derived_shifts 0 (nth (Z.to_nat ci) c d0)) 0 = nth (Z.to_nat ci) (union_shifts c) 0.
+Proof. exact equiv_union_shift_consistent. Qed.
+
+(* form 5: the shift EquivalenceRule(ReverseRule(rule, idx)) declares for its one child, the
+   ORIGINAL parent (any descriptor dp), is the shift the reverse rule itself declares for its
+   provider 0 (ReverseRule.shifts over DisjointUnionStrategy.shifts, any c and idx) *)
+Theorem C10_reverse_equivalence_shift_is_reverse_shift : forall (c : desc) idx dp,
+  nth 0 (derived_shifts 0 dp) 0 = nth 0 (reverse_shifts (union_shifts c) idx) 0.
+Proof. exact equiv_reverse_shift_consistent. Qed.
+
+(* and at the level of reads: the equivalence rule reads its one child at the very size n at which
+   the original union rule reads that child (position ci), and the equivalence rule of the reverse
+   rule reads the original parent at the size at which the reverse rule reads its provider 0 *)
+Theorem C10_derived_reads_are_original_reads : forall (c : desc) ci idx d n,
+  0 <= ci < zlen c ->
+  (In (0, n) (derived_reads 4 d n) /\ In (ci, n) (reads_union c n)) /\
+  (In (0, n) (derived_reads 5 d n) /\ In (0, n) (reads_complement c idx n)).
+Proof. exact derived_reads_are_original_reads. Qed.
+
+(* CartesianProductStrategy: asked about one child only it answers (0,) whatever the child.  The
+   original product rule declares for child ci the sum of the minimum sizes of the OTHER children,
+   so the two agree exactly when those sum to 0 (in particular for a one-child product, where the
+   two calls are the same call).  get_terms of such an equivalence rule raises
+   NotImplementedError in /repo; only its shifts() is observable. *)
+Theorem C10_product_equivalence_shift : forall (c : desc) ci d0 d,
+  product_shifts [d] = [0] /\
+  (0 <= ci < zlen c ->
+   nth (Z.to_nat ci) (product_shifts c) 0 =
+   nth 0 (derived_shifts 1 (nth (Z.to_nat ci) c d0)) 0 + py_sum (product_min_sizes (remove_at ci c))).
+Proof.
+  intros c ci d0 d. split.
+  - apply product_shifts_one.
+  - apply equiv_product_shift_vs_original.
+Qed.
+
+(* form 6: the shift a path declares for its last class is the sum of the shifts declared by its
+   steps (each an equivalence rule on some strategy kind and class), for ANY list of steps *)
+Theorem C10_path_shift_is_sum_of_step_shifts : forall (steps : list (Z * (Z * bool))) strat d,
+  nth 0 (derived_shifts strat d) 0 =
+  py_sum (map (fun s : Z * (Z * bool) => nth 0 (derived_shifts (fst s) (snd s)) 0) steps).
+Proof. exact path_shift_is_sum_of_steps. Qed.
+
+(* ------------------------------------------------------------ all seven forms *)
+(* the property as stated, uniformly over plain, reversed, equivalence, reverse-of-equivalence
+   rules and paths (rule_desc: PlainRule form c idx for forms 0..3, DerivedRule form strat d for
+   forms 4..6; rd_wf says the form number is one of those and idx is in range) *)
+Theorem C10_all_forms_reads_respect_declared_shifts : forall r n p m,
+  rd_wf r ->
+  In (p, m) (rd_reads r n) ->
+  (p = SELF /\ m < n) \/
+  (0 <= p < rd_nchildren r /\ m <= n - nth (Z.to_nat p) (rd_shifts r) 0).
+Proof. exact rd_reads_respect_shifts. Qed.
+
+Theorem C10_all_forms_one_shift_per_child : forall r,
+  rd_wf r -> zlen (rd_shifts r) = rd_nchildren r.
+Proof. exact rd_shifts_length. Qed.
+
 (* NOT proved here (DESIGN 5, C10 item 5, `C10_enough_for_productivity`): that a
    rule set accepted by the forest's `pumps` can be evaluated without ever
    asking for an unavailable term.  It needs C03's `derivable` and the
    specification evaluator of C01; the two facts it rests on are
-   C10_reads_respect_declared_shifts (children) and the `m < n` clause (own
-   terms) above. *)
+   C10_all_forms_reads_respect_declared_shifts (children) and its `m < n` clause
+   (own terms) above. *)
 
 (* ------------------------------------------------------------ non-vacuity *)
 (* a reverse product rule that does read its own earlier terms, a sibling and
@@ -303,6 +401,143 @@ Proof.
   split; reflexivity.
 Qed.
 
+(* ------------------------------------------------------------------------
+   NON-VACUITY of the derived-form theorems: each APPLIED to concrete rules. *)
+Definition d_geo : Z * bool := (2, false).   (* a class of minimum size 2 *)
+Definition d_atom : Z * bool := (3, true).   (* an atom of size 3 *)
+
+(* covers C10_derived_reads_respect_declared_shifts: once per form, both strategies, an atom and a
+   non-atom; the read fed to it is computed, the bound concluded is attained (size 5 at n = 5) *)
+Example C10_derived_reads_respect_declared_shifts_nonvacuous :
+  (0 = 0 /\ 0 <> SELF /\ 5 <= 5 - nth 0 (derived_shifts 0 d_geo) 0 /\ 5 = 5 /\
+   nth 0 (derived_shifts 0 d_geo) 0 = 0) /\
+  (0 = 0 /\ 0 <> SELF /\ 5 <= 5 - nth 0 (derived_shifts 1 d_atom) 0 /\ 5 = 5 /\
+   nth 0 (derived_shifts 1 d_atom) 0 = 0) /\
+  (0 = 0 /\ 0 <> SELF /\ 0 <= 0 - nth 0 (derived_shifts 0 d_atom) 0 /\ 0 = 0 /\
+   nth 0 (derived_shifts 0 d_atom) 0 = 0) /\
+  zlen (derived_shifts 0 d_geo) = 1 /\ zlen (derived_shifts 1 d_atom) = 1.
+Proof.
+  assert (H4 : 4 <= 4 <= 6) by lia. assert (H5 : 4 <= 5 <= 6) by lia. assert (H6 : 4 <= 6 <= 6) by lia.
+  split; [|split; [|split; [|split]]].
+  - apply (proj2 (C10_derived_reads_respect_declared_shifts 4 0 d_geo H4) 5 0 5). vm_compute. intuition.
+  - apply (proj2 (C10_derived_reads_respect_declared_shifts 5 1 d_atom H5) 5 0 5). vm_compute. intuition.
+  - apply (proj2 (C10_derived_reads_respect_declared_shifts 6 0 d_atom H6) 0 0 0). vm_compute. intuition.
+  - exact (proj1 (C10_derived_reads_respect_declared_shifts 4 0 d_geo H4)).
+  - exact (proj1 (C10_derived_reads_respect_declared_shifts 5 1 d_atom H5)).
+Qed.
+(* the hypothesis `In (p, m) (derived_reads ..)` discriminates: other sizes / providers are not read *)
+Example C10_derived_reads_tight :
+  In (0, 5) (derived_reads 5 d_geo 5) /\ ~ In (0, 6) (derived_reads 5 d_geo 5) /\
+  ~ In (0, 4) (derived_reads 4 d_geo 5) /\ ~ In (1, 5) (derived_reads 6 d_geo 5) /\
+  ~ In (SELF, 4) (derived_reads 5 d_geo 5).
+Proof.
+  split; [vm_compute; intuition|]. split; [vm_compute; intuition congruence|].
+  split; [vm_compute; intuition congruence|]. split; vm_compute; intuition congruence.
+Qed.
+
+(* covers C10_derived_reads_exact *)
+Example C10_derived_reads_exact_nonvacuous :
+  (derived_reads 4 d_geo 7 = [(0, 7)] /\ derived_shifts 0 d_geo = [0]) /\
+  (derived_reads 5 d_atom 3 = [(0, 3)] /\ derived_shifts 1 d_atom = [0]) /\
+  (derived_reads 6 d_atom 0 = [(0, 0)] /\ derived_shifts 0 d_atom = [0]).
+Proof.
+  split; [apply (C10_derived_reads_exact 4 0 d_geo 7); lia|].
+  split; [apply (C10_derived_reads_exact 5 1 d_atom 3); lia|].
+  apply (C10_derived_reads_exact 6 0 d_atom 0); lia.
+Qed.
+
+(* covers C10_equivalence_shift_is_original_shift: the three-child union c3 whose child 2 is the
+   non-empty one; C10_reverse_equivalence_shift_is_reverse_shift: its reverse w.r.t. child 2, the
+   original parent having descriptor d_geo *)
+Lemma c3_ci2 : 0 <= 2 < zlen c3. Proof. vm_compute. split; [discriminate|reflexivity]. Qed.
+Example C10_equivalence_shift_consistency_nonvacuous :
+  nth 0 (derived_shifts 0 (nth (Z.to_nat 2) c3 (0, false))) 0 = nth (Z.to_nat 2) (union_shifts c3) 0 /\
+  nth (Z.to_nat 2) c3 (0, false) = (2, false) /\
+  nth 0 (derived_shifts 0 d_geo) 0 = nth 0 (reverse_shifts (union_shifts c3) 2) 0 /\
+  reverse_shifts (union_shifts c3) 2 = [0; 0; 0].
+Proof.
+  split; [exact (C10_equivalence_shift_is_original_shift c3 2 (0, false) c3_ci2)|].
+  split; [reflexivity|].
+  split; [exact (C10_reverse_equivalence_shift_is_reverse_shift c3 2 d_geo)|reflexivity].
+Qed.
+
+(* covers C10_derived_reads_are_original_reads on c3, child 2, reverse w.r.t. child 2 *)
+Example C10_derived_reads_are_original_reads_nonvacuous :
+  (In (0, 4) (derived_reads 4 d_geo 4) /\ In (2, 4) (reads_union c3 4)) /\
+  (In (0, 4) (derived_reads 5 d_geo 4) /\ In (0, 4) (reads_complement c3 2 4)).
+Proof. exact (C10_derived_reads_are_original_reads c3 2 2 d_geo 4 c3_ci2). Qed.
+
+(* covers C10_product_equivalence_shift: on the product c3 the original rule declares 1 for child 2
+   (= 1 + 0, the minimum sizes of the other two children) while the equivalence rule would declare 0;
+   on a one-child product both declare 0 *)
+Example C10_product_equivalence_shift_nonvacuous :
+  product_shifts [d_atom] = [0] /\
+  nth (Z.to_nat 2) (product_shifts c3) 0 =
+    nth 0 (derived_shifts 1 (nth (Z.to_nat 2) c3 (0, false))) 0 + py_sum (product_min_sizes (remove_at 2 c3)) /\
+  nth (Z.to_nat 2) (product_shifts c3) 0 = 1 /\ py_sum (product_min_sizes (remove_at 2 c3)) = 1 /\
+  nth (Z.to_nat 0) (product_shifts [d_atom]) 0 =
+    nth 0 (derived_shifts 1 (nth (Z.to_nat 0) [d_atom] (0, false))) 0 + py_sum (product_min_sizes (remove_at 0 [d_atom])).
+Proof.
+  split; [exact (proj1 (C10_product_equivalence_shift c3 2 (0, false) d_atom))|].
+  split; [exact (proj2 (C10_product_equivalence_shift c3 2 (0, false) d_atom) c3_ci2)|].
+  split; [reflexivity|]. split; [reflexivity|].
+  apply (proj2 (C10_product_equivalence_shift [d_atom] 0 (0, false) d_atom)). vm_compute. split; [discriminate|reflexivity].
+Qed.
+
+(* covers C10_path_shift_is_sum_of_step_shifts: a path of three steps (a union step, a reverse
+   union step on the atom, a product step) and the empty list of steps *)
+Example C10_path_shift_nonvacuous :
+  nth 0 (derived_shifts 0 d_atom) 0 =
+    py_sum (map (fun s : Z * (Z * bool) => nth 0 (derived_shifts (fst s) (snd s)) 0)
+                [(0, d_geo); (0, d_atom); (1, d_geo)]) /\
+  nth 0 (derived_shifts 1 d_geo) 0 =
+    py_sum (map (fun s : Z * (Z * bool) => nth 0 (derived_shifts (fst s) (snd s)) 0) []).
+Proof.
+  split.
+  - exact (C10_path_shift_is_sum_of_step_shifts [(0, d_geo); (0, d_atom); (1, d_geo)] 0 d_atom).
+  - exact (C10_path_shift_is_sum_of_step_shifts [] 1 d_geo).
+Qed.
+
+(* covers C10_all_forms_reads_respect_declared_shifts and C10_all_forms_one_shift_per_child: a plain
+   product, a reversed product reading its own terms, and the three derived forms *)
+Lemma rd_wf_examples :
+  rd_wf (PlainRule 1 c3 0) /\ rd_wf (PlainRule 3 c3 1) /\ rd_wf (DerivedRule 4 0 d_geo) /\
+  rd_wf (DerivedRule 5 0 d_atom) /\ rd_wf (DerivedRule 6 1 d_geo).
+Proof.
+  split; [split; [lia|intros; lia]|]. split; [split; [lia|intros; exact c3_idx1]|].
+  cbn [rd_wf]. lia.
+Qed.
+Example C10_all_forms_nonvacuous :
+  ((2 = SELF /\ 5 < 6) \/
+   (0 <= 2 < rd_nchildren (PlainRule 1 c3 0) /\ 5 <= 6 - nth (Z.to_nat 2) (rd_shifts (PlainRule 1 c3 0)) 0)) /\
+  ((SELF = SELF /\ 3 < 4) \/
+   (0 <= SELF < rd_nchildren (PlainRule 3 c3 1) /\
+    3 <= 4 - nth (Z.to_nat SELF) (rd_shifts (PlainRule 3 c3 1)) 0)) /\
+  ((0 = SELF /\ 5 < 5) \/
+   (0 <= 0 < rd_nchildren (DerivedRule 4 0 d_geo) /\
+    5 <= 5 - nth (Z.to_nat 0) (rd_shifts (DerivedRule 4 0 d_geo)) 0)) /\
+  ((0 = SELF /\ 5 < 5) \/
+   (0 <= 0 < rd_nchildren (DerivedRule 5 0 d_atom) /\
+    5 <= 5 - nth (Z.to_nat 0) (rd_shifts (DerivedRule 5 0 d_atom)) 0)) /\
+  ((0 = SELF /\ 5 < 5) \/
+   (0 <= 0 < rd_nchildren (DerivedRule 6 1 d_geo) /\
+    5 <= 5 - nth (Z.to_nat 0) (rd_shifts (DerivedRule 6 1 d_geo)) 0)) /\
+  zlen (rd_shifts (PlainRule 3 c3 1)) = rd_nchildren (PlainRule 3 c3 1) /\
+  zlen (rd_shifts (DerivedRule 6 1 d_geo)) = rd_nchildren (DerivedRule 6 1 d_geo) /\
+  rd_shifts (PlainRule 3 c3 1) = [-3; -1; -2] /\ rd_shifts (DerivedRule 6 1 d_geo) = [0] /\
+  rd_nchildren (PlainRule 3 c3 1) = 3 /\ rd_nchildren (DerivedRule 6 1 d_geo) = 1.
+Proof.
+  destruct rd_wf_examples as (W1 & W3 & W4 & W5 & W6).
+  split; [apply (C10_all_forms_reads_respect_declared_shifts (PlainRule 1 c3 0) 6 2 5 W1); vm_compute; intuition|].
+  split; [apply (C10_all_forms_reads_respect_declared_shifts (PlainRule 3 c3 1) 4 SELF 3 W3); vm_compute; intuition|].
+  split; [apply (C10_all_forms_reads_respect_declared_shifts (DerivedRule 4 0 d_geo) 5 0 5 W4); vm_compute; intuition|].
+  split; [apply (C10_all_forms_reads_respect_declared_shifts (DerivedRule 5 0 d_atom) 5 0 5 W5); vm_compute; intuition|].
+  split; [apply (C10_all_forms_reads_respect_declared_shifts (DerivedRule 6 1 d_geo) 5 0 5 W6); vm_compute; intuition|].
+  split; [exact (C10_all_forms_one_shift_per_child (PlainRule 3 c3 1) W3)|].
+  split; [exact (C10_all_forms_one_shift_per_child (DerivedRule 6 1 d_geo) W6)|].
+  repeat split; reflexivity.
+Qed.
+
 Print Assumptions C10_compositions_sound.
 Print Assumptions C10_compositions_spec.
 Print Assumptions C10_compositions_no_parts.
@@ -312,3 +547,12 @@ Print Assumptions C10_quotient.
 Print Assumptions C10_quotient_nothing_below_min.
 Print Assumptions C10_reads_respect_declared_shifts.
 Print Assumptions C10_one_shift_per_child.
+Print Assumptions C10_derived_reads_respect_declared_shifts.
+Print Assumptions C10_derived_reads_exact.
+Print Assumptions C10_equivalence_shift_is_original_shift.
+Print Assumptions C10_reverse_equivalence_shift_is_reverse_shift.
+Print Assumptions C10_derived_reads_are_original_reads.
+Print Assumptions C10_product_equivalence_shift.
+Print Assumptions C10_path_shift_is_sum_of_step_shifts.
+Print Assumptions C10_all_forms_reads_respect_declared_shifts.
+Print Assumptions C10_all_forms_one_shift_per_child.
